@@ -39,7 +39,8 @@ META = {
     'decided': ['D1 element/attribute vocabulary',
                 'D2 value vocabularies (direction, access) round-trip',
                 'D3 per-complete-type emission and counter/signature '
-                'pairing; parse state is per parse (no class-level container)', 'D4 known-interface reuse polarity'],
+                'pairing; parse state is per parse (no class-level container)',
+                'D5 every change of the member tables drops the cached XML', 'D4 known-interface reuse polarity'],
     'undecided': ['equality of declared and recovered interfaces for '
                   'arbitrary signatures'],
 }
@@ -303,10 +304,74 @@ def run(ctx):
         ctx, 'C15.D3', ('introspection', 'interface'),
         'the interfaces parsed from one XML document include those of '
         'every document parsed before')
+    cache_invalidation(ctx)
+    ctx.floor('C15.D5', 4)
     ctx.floor('C15.D1', 8)
     ctx.floor('C15.D2', 4)
     ctx.floor('C15.D3', 5)
     ctx.floor('C15.D4', 5)
+
+
+def cache_invalidation(ctx):
+    """The introspection XML of an interface is generated once and cached
+    (`_getXml`).  The XML sent to a peer describes the declared interface
+    only if every change of the tables the generator reads drops the cache
+    on every path."""
+    prog = ctx.prog
+    cls = prog.cls('interface.DBusInterface')
+    gx = prog.lookup_method(cls, '_getXml')
+    selft = ('param', 'self')
+    cache = {t.attr for n in ast.walk(gx.node) if isinstance(n, ast.Assign)
+             for t in n.targets if isinstance(t, ast.Attribute) and
+             isinstance(t.value, ast.Name) and t.value.id == 'self'}
+    if len(cache) != 1:
+        raise AnalysisError('_getXml: the cache attribute was not '
+                            'recognised (%s)' % sorted(cache))
+    cattr = next(iter(cache))
+    sources = {n.attr for n in ast.walk(gx.node)
+               if isinstance(n, ast.Attribute) and
+               isinstance(n.ctx, ast.Load) and
+               isinstance(n.value, ast.Name) and n.value.id == 'self'} - \
+        {cattr}
+    tables = set()
+    n = 0
+    for k in prog.subclasses(cls):
+        for fi in k.methods.values():
+            if fi.node.name in ('__init__', '_getXml'):
+                continue
+            for p in Interp(prog, exc_edges=False).run(fi):
+                if p.outcome == 'raise':
+                    continue
+                touched = []
+                for ev in iter_events(p.trace):
+                    tgt = None
+                    if ev[0] in ('setsub', 'delsub'):
+                        tgt = ev[1]
+                    elif ev[0] == 'call' and kind(ev[1][2]) == 'attr' and \
+                            ev[1][2][2] in ('pop', 'update', 'clear',
+                                            'setdefault', 'popitem'):
+                        tgt = ev[1][2][1]
+                    elif ev[0] == 'setattr' and ev[1] == selft and \
+                            ev[2] in sources:
+                        touched.append(ev[2])
+                    if kind(tgt) == 'attr' and tgt[1] == selft and \
+                            tgt[2] in sources:
+                        touched.append(tgt[2])
+                if not touched:
+                    continue
+                tables.update(touched)
+                n += 1
+                ok = p.state.heap.get((selft, cattr)) == NONE
+                ctx.ob('C15.D5', fi.qualname, 'drops-cached-xml', ok,
+                       'self.%s is changed on this path but the cached '
+                       'introspection XML (self.%s) is not reset to None: a '
+                       'peer that introspects after the XML was generated '
+                       'once gets the OLD description (a declared member is '
+                       'missing from every proxy built from it)'
+                       % (sorted(set(touched))[0], cattr))
+    ctx.extra['xml_cache'] = {'cache_attr': cattr,
+                              'generator_reads': sorted(sources),
+                              'tables_changed_somewhere': sorted(tables)}
 
 
 def templates_in_order(fnode):
